@@ -178,19 +178,20 @@ def digitVal (c : Char) : Nat := c.toNat - 48
 /-- after a digit: `(["_"] digit)*`; returns the digit values and the rest -/
 def digitsTail : Nat → Str → List Nat × Str
   | 0, s => ([], s)
-  | n + 1, s =>
-    match s with
-    | '_' :: c :: r =>
-      if isDigit c then
-        let (ds, r') := digitsTail n r
-        (digitVal c :: ds, r')
-      else ([], s)
-    | c :: r =>
-      if isDigit c then
-        let (ds, r') := digitsTail n r
-        (digitVal c :: ds, r')
-      else ([], s)
-    | [] => ([], [])
+  | _ + 1, [] => ([], [])
+  | n + 1, c :: r =>
+    if isDigit c then
+      let p := digitsTail n r
+      (digitVal c :: p.1, p.2)
+    else if c = '_' then
+      match r with
+      | d :: r' =>
+        if isDigit d then
+          let p := digitsTail n r'
+          (digitVal d :: p.1, p.2)
+        else ([], c :: r)
+      | [] => ([], c :: r)
+    else ([], c :: r)
 
 /-- `digitpart ::= digit (["_"] digit)*`, optional: `none` when the input does not start with a digit -/
 def digitPart (s : Str) : Option (List Nat) × Str :=
